@@ -118,6 +118,24 @@ func enumerate(s *subjectSpec, seed uint64, o enumOpts, r *rand.Rand) []mutation
 		}
 	}
 
+	// 1b. page-aligned files whose trailer (the last 8 bytes: offset and size of the table
+	// of contents) points just past the end of the file. The shard is mmapped in whole
+	// pages, so reads are bounds-checked against a length rounded to the page size: a file
+	// of exactly k pages has no slack page, and an offset into the page behind it must be
+	// refused, not read (SIGBUS is not recoverable).
+	for _, k := range []int{1, 2, 3} {
+		n := k * 4096
+		body := make([]byte, n)
+		copy(body, orig)
+		for _, off := range []int{n - 1, n, n + 1, n + 8, n + 4095, n + 4096} {
+			for _, sz := range []int{8, 64, 4096} {
+				w := append([]byte(nil), body...)
+				copy(w[n-8:], append(u32b(uint32(off)), u32b(uint32(sz))...))
+				add(mutation{ID: fmt.Sprintf("pagesize/%d/%d/%d", k, off-n, sz), Kind: "page-aligned", Trunc: none, Whole: w})
+			}
+		}
+	}
+
 	// 2. single bit flips: all bits of the structural regions, one bit in eight elsewhere
 	st := l.structural()
 	k := 0
